@@ -7,7 +7,7 @@ centres, radii as bit patterns) has an exact meaning.  `Q` is an unnormalised fr
 all decisions below are comparisons of polynomials in the inputs, so nothing is rounded:
 
 * the exact kind of contact (number of common points from the sign of `d - r`, `d - (r1 ± r2)`),
-  reported only when the configuration is at least `margin` (= 10 × the property's 1e-9 tolerance)
+  reported only when the configuration is at least `margin` (= 1.01 × the property's 1e-9 tolerance)
   away from a boundary between kinds, or *exactly* on it (exact tangency, exact border point);
 * the predicate "this returned point is within `tol` (= 1e-7) of the line / circle", evaluated
   exactly on the returned coordinates (no cancellation in the check itself).
@@ -78,9 +78,10 @@ def QLine.eval (l : QLine) (p : QPoint) : Q := l.A * p.x + l.B * p.y + l.C
 def QLine.n2 (l : QLine) : Q := l.A.sq + l.B.sq
 def qDist2 (p q : QPoint) : Q := (p.x - q.x).sq + (p.y - q.y).sq
 
-/-- 10 × the tolerance the property names (1e-9): closer than this to a boundary between kinds,
-    the property accepts either kind. -/
-def margin : Q := Q.tenPowNeg 8
+/-- the tolerance the property names (1e-9) plus 1 %: closer than this to a boundary between kinds the property
+    accepts either kind.  The soundness theorems need `eps < margin`; the extra `1e-11` is what absorbs the f64
+    rounding of `d` (≤ ~1e-12 for coordinates up to 1e3) in the differential run. -/
+def margin : Q := ⟨101, 10 ^ 11⟩
 /-- returned points must be within 1e-7 of both primitives -/
 def tol : Q := Q.tenPowNeg 7
 
